@@ -84,7 +84,7 @@ def plan(tier, seed):
 
 
 def plan_virtual(tier, seed):
-    cs = rc.configs(tier)
+    cs = [c for c in rc.configs(tier) if not c.get("passthrough")]  # (the pass-through configurations are C11's)
     if tier == "quick":
         # four one-record workers x 8 fault points each are left to the thorough tier (the three-worker configurations stay)
         cs = [c for c in cs if not (c["nrec"] == 4 and c["batch"] == 1)]
